@@ -62,7 +62,10 @@ func crashWorkloads() []crashWorkload {
 			[]txProg{wtx("Sa", "Sb"), wtx("Sa", "Sb", "Sc"), wtx("Da", "Sb", "Sd"), wtx("Sc", "Sd")}, true, nil},
 		// large values (crashBig marks keys whose values are 30 000 bytes, 65 535 for key A): a transaction of more than 64 KiB
 		{"W7-large-multikey", dbCfg{Mem: 100000, Imm: 1, Block: 4096, L0: 2, Ratio: 2, SL: 1},
-			[]txProg{wtx("Sa", "Sb", "Sc", "Sd"), wtx("SA", "SB", "SC", "Sd"), wtx("Sa", "DB", "SC")}, true, nil},
+			[]txProg{wtx("Sa", "Sb", "Sc", "Sd"), wtx("SA", "SB", "SC", "Sd"), wtx("Sa", "DB", "SC"), wtx("SA")}, true, nil},
+		// one table per commit and no compaction: twelve tables in L0 (indices with one and two digits) at the crash
+		{"W9-many-tables", dbCfg{Mem: 1, Imm: 1, Block: 4096, L0: 14, Ratio: 2, SL: 1},
+			[]txProg{wtx("Sa"), wtx("Sb"), wtx("Sc"), wtx("Sd"), wtx("Sa"), wtx("Db"), wtx("Sc"), wtx("Sd"), wtx("Sa"), wtx("Sb"), wtx("Sc"), wtx("Dd")}, false, nil},
 		// two goroutines commit multi-key transactions on disjoint keys at the same time, with rotation
 		{"W8-two-committers", dbCfg{Mem: 70, Imm: 1, Block: 4096, L0: 2, Ratio: 2, SL: 1},
 			[]txProg{wtx("Sa", "Sc"), wtx("Sa", "Sb"), wtx("Db", "Sa"), wtx("Sc", "Sd"), wtx("Dc", "Sd")}, true, [][]int{{1, 2}, {3, 4}}},
